@@ -75,14 +75,23 @@ def register(R, tier="quick"):
         fs = []
         for f in out.get("failures", []):
             f = dict(f)
-            f["snippet"] = ("import runpy, sys\nsys.argv = ['queries_bounded.py', '--corpus', %r]\n"
-                            "runpy.run_path(%r, run_name='__main__')\n"
-                            % (json.dumps(f["corpus"]), os.path.join(ROOT, "bounded", "queries_bounded.py")))
+            if f.get("corpus") is None:
+                # deterministic large-corpus family: the replay is that family itself
+                f["snippet"] = ("import sys\nsys.path.insert(0, %r)\nimport queries_bounded as q\nfails = []\nq.check_big(fails)\n"
+                                "[print('FAIL', x['case'], '|', x['detail']) for x in fails]\nsys.exit(1 if fails else 0)\n"
+                                % os.path.join(ROOT, "bounded"))
+            else:
+                f["snippet"] = ("import runpy, sys\nsys.argv = ['queries_bounded.py', '--corpus', %r]\n"
+                                "runpy.run_path(%r, run_name='__main__')\n"
+                                % (json.dumps(f["corpus"]), os.path.join(ROOT, "bounded", "queries_bounded.py")))
             fs.append(f)
         out["failures"] = fs
         return out
     R.bounded_check("queries-bounded@C01", ["C01"], qfn,
-                    bound="random corpora (<= 8 docs of <= 6 tokens over a 16-word vocabulary, 0-2 segment cuts, 0-1 deletion) x "
+                    bound="two deterministic large corpora (600 docs: phrase / span-near under limits 1..100 over posting blocks of "
+                          "2, 8, 128; 4300 docs: Or of 3 and 4 terms, scored / unscored / sorted) and "
+                          "random corpora (<= 8 docs of <= 6 tokens over a 16-word vocabulary, 0-2 segment cuts, 0-1 deletion, posting "
+                          "blocks of 1-3 or 128 entries; every access path scored / unscored / sorted / terms under limits 1-3) x "
                           "~22 generated queries each: Phrase (2-3 words, slop 1-3), Prefix, Wildcard, Regex (incl. trailing "
                           "?/* quantifiers), TermRange (open/closed/unbounded), NumericRange (8-bit signed, step 2), Every; "
                           "quick 1000 corpora, thorough 20000",
